@@ -32,7 +32,12 @@ func (m *Mutex) Lock() {
 		panic(abortSentinel{})
 	}
 	m.fix(x)
-	x.point(&op{kind: OpLock, site: caller(2), desc: fmt.Sprintf("%p", m), enabled: func() bool { m.fix(x); return !m.locked }})
+	if !m.locked && x.noPreempt(OpLock) {
+		m.locked = true
+		m.holder = x.cur.id
+		return
+	}
+	x.point(&op{kind: OpLock, site: caller(2), descF: func() string { return fmt.Sprintf("%p", m) }, enabled: func() bool { m.fix(x); return !m.locked }})
 	m.locked = true
 	m.holder = x.cur.id
 }
@@ -102,16 +107,20 @@ func (m *RWMutex) Lock() {
 		panic(abortSentinel{})
 	}
 	m.fix(x)
+	if !m.writer && m.pendingW == 0 && m.readers == 0 && x.noPreempt(OpLock) {
+		m.writer = true
+		return
+	}
 	site := caller(2)
 	// phase 1: get past other writers
-	x.point(&op{kind: OpLock, site: site, desc: fmt.Sprintf("%p", m), enabled: func() bool { m.fix(x); return !m.writer && m.pendingW == 0 }})
+	x.point(&op{kind: OpLock, site: site, descF: func() string { return fmt.Sprintf("%p", m) }, enabled: func() bool { m.fix(x); return !m.writer && m.pendingW == 0 }})
 	if m.readers > 0 {
 		// phase 2: announced; new readers are held off until we are through
 		m.pendingW++
 		defer func() {
 			// if unwound by abort the counter does not matter any more
 		}()
-		x.point(&op{kind: OpLock, site: site, desc: fmt.Sprintf("%p (writer waiting for %d readers)", m, m.readers), enabled: func() bool { return m.readers == 0 }})
+		x.point(&op{kind: OpLock, site: site, descF: func() string { return fmt.Sprintf("%p (writer waiting for %d readers)", m, m.readers) }, enabled: func() bool { return m.readers == 0 }})
 		m.pendingW--
 	}
 	m.writer = true
@@ -164,7 +173,11 @@ func (m *RWMutex) RLock() {
 		panic(abortSentinel{})
 	}
 	m.fix(x)
-	x.point(&op{kind: OpRLock, site: caller(2), desc: fmt.Sprintf("%p", m), enabled: func() bool { m.fix(x); return !m.writer && m.pendingW == 0 }})
+	if !m.writer && m.pendingW == 0 && x.noPreempt(OpRLock) {
+		m.readers++
+		return
+	}
+	x.point(&op{kind: OpRLock, site: caller(2), descF: func() string { return fmt.Sprintf("%p", m) }, enabled: func() bool { m.fix(x); return !m.writer && m.pendingW == 0 }})
 	m.readers++
 }
 
